@@ -92,8 +92,12 @@ class UserTask(recoco.BaseTask):
 
 
 class Adapter(object):
-  def __init__(self, threaded=False, nlocks=1):
+  def __init__(self, threaded=False, nlocks=1, epoll=False):
     self.threaded = threaded
+    self.ep = None
+    if epoll:
+      from pox.lib.epoll_select import EpollSelect
+      self.ep = EpollSelect()
     self.base = clock.now
     orig_thread = recoco.Thread
     recoco.Thread = FakeThread
@@ -122,7 +126,10 @@ class Adapter(object):
 
   # ---- environment
   def _vselect(self, r, w, x, timeout):
-    ro, wo, xo = _select.select(list(r), list(w), list(x), 0)
+    if self.ep is not None:      # SelectHub(use_epoll=True): EpollSelect must behave like select()
+      ro, wo, xo = self.ep.select(list(r), list(w), list(x), 0)
+    else:
+      ro, wo, xo = _select.select(list(r), list(w), list(x), 0)
     if ro or wo or xo:
       return ro, wo, xo
     if timeout is not None:
@@ -158,6 +165,8 @@ class Adapter(object):
     return w
 
   def close(self):
+    if self.ep is not None:
+      self.ep.close()
     for a, b in self.wpairs:
       a.close()
       b.close()
